@@ -38,7 +38,8 @@ RULE = ("real projects of 0-12 jobs over textually colliding universes (1/10/100
         "tar.bz2, tar.xz} x path in {None, False, format strings incl. {{auto}} / {{auto:sep}} / {job.sp.k} / "
         "{job.id}, tabulated callables chosen to collide} x schema in {None, schema string derived from the "
         "layout, tabulated callable (exact / one wrong / type-confused / partial)} x optional pre-existing jobs "
-        "in the importing project; plus direct cases for the schema-string parser and normpath/join; distinct = "
+        "in the importing project x empty sub-directories in ~10% of the jobs x a few paths that leave the target or "
+        "are not in normal form ('../y', absolute, 'c//d', 'b/.', ''); plus direct cases for the schema-string parser and normpath/join; distinct = "
         "distinct (state points, target, path, schema, pre) ; non-trivial = at least one job")
 MODELLED = ["zipfile / tarfile / shutil.copytree / os.walk byte level behaviour (only the member list and the "
             "copied file set are compared)",
@@ -46,11 +47,12 @@ MODELLED = ["zipfile / tarfile / shutil.copytree / os.walk byte level behaviour 
             "CPython re (schema regex) for the fragment 'literal or one {key[:type]} field per path component'",
             "float(repr(x)) == x and repr of plain decimals (hypothesis of schema_string_roundtrip)",
             "calc_id (C01) as the map state point -> job id; MD5 collision-freeness"]
-ASSUMPTIONS = ["state points are JSON objects; no key contains '.', '/', '{' or '}', no value contains braces or starts with '/'",
+ASSUMPTIONS = ["state points are JSON objects; no key contains '.', '/', '{' or '}', no value contains braces; values that are "
+               "absolute paths or start with '..' occur only where they START the export path (callable, '{a}', automatic "
+               "path of an absolute value); a '..' in the middle of a path is not generated",
                "no float value equals -1.0 or -2.0 (CPython hash(-1) quirk of signac's _float wrapper is not modelled)",
                "schema strings: ASCII, one literal or one {key[:type]} field per '/'-separated component",
-               "job directories contain files and non-empty sub-directories only (zip drops empty directories)",
-               "format-string fields are only used on keys whose values are non-empty scalars other than '.'"]
+               "format-string fields are only used on scalar-valued keys"]
 EXHAUSTIVE = {"quick": False, "thorough": False}
 TECHNIQUE = ("Lean 4 theorems about an executable model of signac/import_export.py (path functions, export checks, "
              "member lists, the three import analysers, schema strings) + differential correspondence of the "
@@ -74,8 +76,11 @@ LEVEL_TEXT = ("Proved in Lean for all projects, all path lists and every hash fu
 LEVEL_NOTE = ("The three round-trip theorems and import_no_overwrite_* carry the extra hypothesis NoNestedSp (no job holds a "
               "nested file named signac_statepoint.json), hence the _partial names; the full statement is kept as "
               "valid_paths_roundtrip_full : Prop, believed true, not proved (it needs the parents-first visiting order). "
-              "The model mirrors the code after the fix commits for F-16a/b/c/d (found by this check on the pinned tree, "
-              "proposed/F-16?.md); nothing is carved out: any oracle failure is a VIOLATION. 'Export leaves the source "
+              "The zip theorems additionally need NoEmptyDirs: zip export does not store empty sub-directories (known "
+              "finding F-16e, current behaviour modelled, valid_paths_roundtrip_full_false proves the full statement false "
+              "from that witness; carve-out = zip target AND a job with an empty sub-directory AND only such directories "
+              "missing). The model mirrors the code after the fix commits for F-16a/b/c/d and the fix commit for F-16f "
+              "(paths checked after normalisation, nothing may leave the target). 'Export leaves the source "
               "unchanged' is not a theorem (export is a pure function of the project in the model); it is checked by byte "
               "snapshots on every case. schema_string_roundtrip is stated on path components, not on the joined string. "
               "Not proved / trusted: archive byte formats and compression, str.format and Formatter.parse, the regex "
@@ -1166,10 +1171,7 @@ def known_class(case, r):
         return None
     info = r.get("info") or {}
     paths = info.get("class_paths")
-    # F-16f: paths that are only wrong after normalisation (leave the target, name the same place twice,
-    # nest) pass the checks, which look at the raw strings
-    if paths is not None and len(set(paths)) == len(paths) and not paths_conflict_raw(paths) and not norm_checks_ok(paths):
-        return "F-16f"
+    # (F-16f is fixed in /repo: paths are checked after normalisation; no carve-out)
     # F-16e: zip export stores files only; empty sub-directories of a job are lost
     if case["target"] == "zip" and info.get("empty_dirs") and all(
             "empty director" in m or ("files differ after the round trip: missing" in m and m.endswith("extra [] changed []"))
